@@ -774,6 +774,16 @@ def run_usb(c: dict):
         info["class"] = "reject" if dev.violations else "accept"
         return line, out, None, info
 
+    if kind == "u.host":
+        # the model's host-side reference (hostSpec) against the Python reference host on the same transfers
+        script = _script_of(c)
+        line = f"u.host {_script_items(script)}"
+        ref = ref_host_reassemble(script)
+        out = f"ok {hx(ref[1])}" if ref[0] == "ok" else "error"
+        info["nontrivial"] = len(script) > 0
+        info["class"] = ref[0]
+        return line, out, None, info
+
     raise ValueError(f"unknown usbtmc case kind {kind}")
 
 
@@ -1047,6 +1057,8 @@ def gen_usb(rng, big: bool) -> dict:
         if rng.random() < 0.2:
             c["num"] = rng.choice([1, 2, n - 1, n, n + 1, mts, mts + 1])
         c["script"] = [IOERR if t == IOERR else hxi(t) for t in script]
+        if rng.random() < 0.15:
+            return {"kind": "u.host", "script": c["script"]}
         return c
     # the two device decoders (model's and the Python reference) on host output, valid and mutated
     n = _payload_len(rng, mts) or 1
